@@ -3,7 +3,8 @@ from ..ir import AnalysisBroken, strip_targs, qmatch
 from ..graph import Graph
 from ..expr import access_path, path_str, held_locks, reaching_defs, norm_cond, origins, leaves, defs_in_node
 from ..linear import linear, relation, fmt
-from .common import strip_casts, short, comparison, FLIP
+from .common import strip_casts, short, comparison, FLIP, subtree_through_locals, pointer_pins, sign_pins
+from ..symb import feasible_reach
 
 UNITS = ['sdk/src/metrics/aggregation/histogram_aggregation.cc', 'sdk/src/metrics/sync_instruments.cc',
          'sdk/src/metrics/state/temporal_metric_storage.cc', 'sdk/src/metrics/state/sync_metric_storage.cc', 'sdk/src/metrics/state/filtered_ordered_attribute_map.cc']
@@ -103,29 +104,9 @@ def rule_r1(ck, prog, cls, ty='double', rule='C07.R1'):
               (n['k'] == 'call' and n.get('op') == '+=' and f.nodes[n['args'][0]].get('v') == 1)
         ck.verdict(ok and by1, rule, f, 'bucket:index-from-search', n, 'counts_[BucketBinarySearch(value, boundaries_)] += 1' if ok and by1 else
                    'the bucket incremented is not the one BucketBinarySearch(value, boundaries_) selects, or not by 1')
-    for fld, fn in (('min_', 'min'), ('max_', 'max')):
-        w = writes(fld)
-        if not w:
-            ck.violation(rule, f, fld + ':updated', None, '%s is never updated' % fld)
-            continue
-
-        def rmm_edge(a, b, lab):
-            if not lab or not isinstance(lab[0], int):
-                return False
-            core, pol = norm_cond(lab[1], lab[0])
-            if access_path(lab[1], core, a.ctx)[-1:] == ('record_min_max_',):
-                return (lab[2] if pol else not lab[2]) is True
-            return False
-        n = w[0].n
-        rhs = n['rhs'] if n['k'] == 'binop' else (n['args'][0] if n.get('args') else None)
-        calls = [f.nodes[i] for i in f.subtree(rhs) if f.nodes[i]['k'] == 'call' and strip_targs(f.nodes[i].get('c', '')) in ('std::min', 'std::max')]
-        lv = leaves(f, rhs)
-        ok = all(g.must_pass_edge(p, rmm_edge) for p in w) and len(calls) == 1 and strip_targs(calls[0]['c']) == 'std::' + fn and \
-            ('param', f.params[0]['name']) in lv and any(l[0] == 'field' and l[1].endswith(fld) for l in lv)
-        ck.verdict(ok, rule, f, fld + ':' + fn + '-of-old-and-value', n, '%s = %s(%s, value) under record_min_max_' % (fld, fn, fld) if ok else
-                   '%s is not updated as %s(old, value) under the record_min_max flag' % (fld, fn))
-    # with the flag set both extremes are updated on every path (count, sum and bucket are covered by the once-per-path obligations
-    # above, so an early return after them is harmless)
+    # min_/max_: with the flag set, at the exit min_ == min(old min_, value) (max_ likewise).  A write is either the selection
+    # `min_ = min(min_, value)` (std::min/std::max or the equivalent conditional expression), or the plain `min_ = value` behind the
+    # edge "value is smaller than min_"; a path that writes nothing must have passed the edge "value is not smaller than min_".
     def rmm_true(a, b, lab):
         if not lab or not isinstance(lab[0], int):
             return False
@@ -133,10 +114,62 @@ def rule_r1(ck, prog, cls, ty='double', rule='C07.R1'):
         if access_path(lab[1], core, a.ctx)[-1:] == ('record_min_max_',):
             return (lab[2] if pol else not lab[2]) is True
         return False
-    starts = [q for p in g.points for (q, lab) in p.succ if rmm_true(p, q, lab)]
-    skipped = [fld for fld in ('min_', 'max_') if starts and g.exit.id in g.reachable_from(starts, avoid=writes(fld))]
+    starts = [q for p in g.points for (q, lab) in p.succ if rmm_true(p, q, lab)] or [g.entry]   # no flag test: always enabled
+    pname = f.params[0]['name']
+
+    def cmp_edge(fld, fn, want_update):
+        """edge predicate: the comparison of value with the stored extreme says "value beats it" (want_update) / "it does not" """
+        def pred(a, b, lab):
+            if not lab or not isinstance(lab[0], int):
+                return False
+            core, pol = norm_cond(lab[1], lab[0])
+            c = comparison(lab[1], core)
+            if not c or c[0] not in ('<', '<=', '>', '>='):
+                return False
+            op, l, r = c
+            ll, lr = leaves(lab[1], l), leaves(lab[1], r)
+            is_val = lambda lv: ('param', pname) in lv and not any(x[0] == 'field' for x in lv)
+            is_old = lambda lv: any(x[0] == 'field' and x[1].endswith(fld) for x in lv) and ('param', pname) not in lv
+            if is_val(lr) and is_old(ll):
+                op = FLIP[op]
+            elif not (is_val(ll) and is_old(lr)):
+                return False
+            truth = lab[2] if pol else (not lab[2])
+            # now: (value op old) has truth `truth`
+            smaller = (op in ('<', '<=') and truth) or (op in ('>', '>=') and not truth)    # value <(=) old
+            beats = smaller if fn == 'min' else (not smaller)
+            return beats is want_update
+        return pred
+    for fld, fn in (('min_', 'min'), ('max_', 'max')):
+        w = writes(fld)
+        if not w:
+            ck.violation(rule, f, fld + ':updated', None, '%s is never updated' % fld)
+            continue
+        bad = None
+        for p in w:
+            n = p.n
+            rhs = n['rhs'] if n['k'] == 'binop' else (n['args'][0] if n.get('args') else None)
+            lv = leaves(f, rhs) if rhs is not None else set()
+            kind, ops = _select_kind(f, rhs) if rhs is not None else (None, [])
+            if kind is not None:
+                olv = [leaves(f, o) for o in ops]
+                sel_ok = kind == fn and any(('param', pname) in x for x in olv) and any(any(l[0] == 'field' and l[1].endswith(fld) for l in x) for x in olv)
+                if not sel_ok:
+                    bad = (p, 'selects %s of %s' % (kind, ' and '.join(sorted({l[1] if isinstance(l[1], str) else '?' for x in olv for l in x}))))
+            elif ('param', pname) in lv and not any(l[0] == 'field' for l in lv):
+                if not g.must_pass_edge(p, cmp_edge(fld, fn, True)):
+                    bad = (p, 'stores the value without having compared it with the stored %s' % fld)
+            else:
+                bad = (p, 'is neither %s(old, value) nor a guarded store of the value' % fn)
+        ok = bad is None
+        ck.verdict(ok, rule, f, fld + ':' + fn + '-of-old-and-value', (bad[0] if bad else w[0]).n, '%s becomes %s(%s, value)' % (fld, fn, fld) if ok else
+                   '%s is not updated as %s(old, value): the update %s' % (fld, fn, bad[1]))
+    # with the flag set both extremes are right on every path (count, sum and bucket are covered by the once-per-path obligations
+    # above, so an early return after them is harmless)
+    skipped = [fld for fld, fn in (('min_', 'min'), ('max_', 'max'))
+               if starts and g.exit.id in g.reachable_from(starts, avoid=writes(fld), avoid_edges=cmp_edge(fld, fn, False))]
     ck.verdict(bool(starts) and not skipped, rule, f, 'flag-set=>both-extremes-updated', starts[0].n if starts else None,
-               'behind the record_min_max edge every path updates min_ and max_' if starts and not skipped else
+               'behind the record_min_max edge every path updates min_ and max_ (or has found the value not to beat them)' if starts and not skipped else
                'with record_min_max set a path through Aggregate leaves %s untouched: the reported extreme is not the smallest / largest recorded value' % (', '.join(skipped) or 'min_/max_'))
 
 
@@ -246,21 +279,6 @@ def rule_r3(ck, prog, cls, ty, rule='C07.R3'):
                        (fld, m, ' negated' if neg else '', want, ' (for floating types min() is the smallest positive value: a histogram of non-positive values reports it as max)' if m == 'min' and is_float else ''))
 
 
-def _subtree_through_locals(f, idx, depth=0):
-    """node indexes of an expression, following once-initialised locals to their initialisers"""
-    out = []
-    for j in f.subtree(idx):
-        out.append(j)
-        n = f.nodes[j]
-        if n['k'] == 'ref' and n.get('sk') == 'local' and depth < 3:
-            for m in f.nodes:
-                if m['k'] == 'declstmt':
-                    for d in m['decls']:
-                        if d['id'] == n['id'] and d.get('init') is not None and d['init'] >= 0:
-                            out += _subtree_through_locals(f, d['init'], depth + 1)
-    return out
-
-
 def _select_kind(f, idx):
     """('min' | 'max' | None, [operand idx, operand idx]) for std::min / std::max calls and for the conditional expressions that
     select the smaller / larger of two operands (a < b ? a : b, b > a ? a : b, ...)"""
@@ -352,7 +370,7 @@ def rule_r4(ck, prog, rule='C07.R4'):
                 kind, ops = _select_kind(f, ws[0]['args'][0])
                 if kind == fn.split('::')[1] and len(ops) == 2:
                     srcs = [{l[1] for l in leaves(f, o) if l[0] == 'param'} for o in ops]
-                    flds = [any(f.nodes[j]['k'] == 'member' and f.nodes[j]['name'] == fld for j in _subtree_through_locals(f, o)) for o in ops]
+                    flds = [any(f.nodes[j]['k'] == 'member' and f.nodes[j]['name'] == fld for j in subtree_through_locals(f, o)) for o in ops]
                     ok = all(flds) and sorted(map(sorted, srcs)) == sorted([[cur], [dlt]])
             ck.verdict(ok, rule, f, fld + ':combined', ws[0] if ws else None, '%s = %s(current, delta)' % (fld, fn.split('::')[1]) if ok else 'the merged %s is not %s of both operands' % (fld, fn.split('::')[1]))
     for cls, ty in CLASSES:
@@ -376,6 +394,7 @@ def rule_r5(ck, prog, rule='C07.R5', classes=('sdk::metrics::TemporalMetricStora
     # (AsyncMetricStorage is left out on purpose: there is no observable histogram, its aggregations take no config)
     cnt = 0
     for cls in classes:
+        before = cnt
         r = prog.record(cls)
         has_cfg = any('aggregation_config' in fd['name'] for fd in r['fields']) or \
             any('aggregation_config' in p['name'] for x in prog.funcs.values() if x.cls == r['qn'] and x.kind == 'ctor' for p in x.params)
@@ -388,6 +407,13 @@ def rule_r5(ck, prog, rule='C07.R5', classes=('sdk::metrics::TemporalMetricStora
                 if x.key not in keys and x.d.get('lambda') and x.d.get('parent') in keys:
                     keys.add(x.key)
                     changed = True
+            # file-local helpers the members call (a block moved into an anonymous-namespace function)
+            for k in list(keys):
+                for n in prog.funcs[k].nodes:
+                    ck_ = n.get('ck') if n['k'] == 'call' else None
+                    if ck_ and ck_ not in keys and ck_ in prog.funcs and prog.funcs[ck_].d.get('local') and prog.funcs[ck_].blocks:
+                        keys.add(ck_)
+                        changed = True
         for f in sorted([prog.funcs[k] for k in keys], key=lambda x: x.line):
             for n in f.nodes:
                 if n['k'] == 'call' and strip_targs(n.get('c', '')).endswith('DefaultAggregation::CreateAggregation') and len(n.get('args', [])) == 3:
@@ -406,6 +432,8 @@ def rule_r5(ck, prog, rule='C07.R5', classes=('sdk::metrics::TemporalMetricStora
                         lv = leaves(f, n['args'][2])
                         ok = any('aggregation_config' in (l[1] if isinstance(l[1], str) else '') for l in lv) or any(l[0] in ('param', 'local', 'field') for l in lv)
                         ck.verdict(ok, rule, f, site, n, 'configuration passed' if ok else 'the configuration argument does not come from the stored config')
+        if cnt == before:
+            raise AnalysisBroken('%s creates no aggregation (no DefaultAggregation::CreateAggregation call found in its members)' % cls)
     return cnt
 
 
@@ -413,6 +441,12 @@ def rule_r6(ck, prog, rule='C07.R6'):
     cnt = 0
     for cls, signed in (('sdk::metrics::DoubleHistogram', True), ('sdk::metrics::LongHistogram', False)):
         rec = prog.record(cls)
+        rec_fields = list(rec['fields'])
+        for b_ in rec.get('bases', []):
+            try:
+                rec_fields += prog.record(strip_targs(b_['t']))['fields']
+            except Exception:
+                pass
         for f in sorted([x for x in prog.funcs.values() if x.cls == rec['qn'] and x.name == 'Record'], key=lambda x: x.line):
             cnt += 1
             g = Graph(prog, f, inline=None, sync_lambdas=False)
@@ -423,29 +457,17 @@ def rule_r6(ck, prog, rule='C07.R6'):
                 continue
             vid = f.params[0]['id']
 
-            def allowed_skip(a, b, lab):
-                """edges on which dropping the value is legitimate: value < 0 (true) or storage missing"""
-                if not lab or not isinstance(lab[0], int):
-                    return False
-                core, pol = norm_cond(lab[1], lab[0])
-                truth = lab[2] if pol else (not lab[2])
-                c = comparison(lab[1], core)
-                if c:
-                    op, l, r = c
-                    ln, rn = strip_casts(f, l), strip_casts(f, r)
-                    if rn.get('id') == vid:
-                        op, ln, rn = FLIP[op], rn, ln
-                    if ln.get('id') == vid and (rn.get('v') == 0 or rn.get('fv') == 0.0):
-                        return (op == '<' and truth is True) or (op == '>=' and truth is False)
-                ap = access_path(lab[1], core, a.ctx)
-                if ap == ('this', 'storage_'):
-                    return truth is False
-                return False
-            r = g.reachable_from(g.entry, avoid=recs, avoid_edges=allowed_skip)
-            ok = g.exit.id not in r
-            ck.verdict(ok, rule, f, site, recs[0].n, 'a value is dropped only behind value < 0 or a missing storage' if ok else
-                       'Record can drop a value on a path that is neither "value < 0" nor "no storage": legitimate values (e.g. 0, tiny or large ones) never reach the histogram',
-                       path=None if ok else g.describe_path(g.path(g.entry, g.exit, avoid=recs, avoid_edges=allowed_skip) or []))
+            # decision table: in the scenario "the value is not negative and there is a storage" every path forwards the value
+            # (what happens to negative values is not part of the property)
+            def storage_path(ap):
+                return len(ap) == 2 and ap[0] == 'this' and any(fd['name'] == ap[1] and 'Storage' in fd['t'] for fd in rec_fields)
+            pins = dict(pointer_pins(f, storage_path, True))
+            pins.update(sign_pins(f, vid, False))
+            bad = feasible_reach(g, [g.entry], [g.exit], avoid=recs, pins=pins)
+            ok = bad is None
+            why = 'Record can drop a value on a path that is neither "value < 0" nor "no storage": legitimate values (e.g. 0, tiny or large ones) never reach the histogram'
+            ck.verdict(ok, rule, f, site, recs[0].n, 'with a storage every non-negative value is forwarded (decision table over value<0 / storage!=null)' if ok else why,
+                       path=None if ok else g.describe_path(bad or []))
     return cnt
 
 
@@ -454,7 +476,7 @@ def run(ck, prog):
     ck.doc('C07.R2', 'BucketBinarySearch is lower_bound over [begin,end) measured from begin (inclusive upper boundary)', 2)
     ck.doc('C07.R3', 'initial min/max are the top/bottom of the value order', 4)
     ck.doc('C07.R4', 'HistogramMerge shape; counts sized boundaries.size()+1', 10)
-    ck.doc('C07.R5', 'the aggregation config reaches every CreateAggregation call of a storage', 3)
+    ck.doc('C07.R5', 'the aggregation config reaches every CreateAggregation call of a storage', 2)
     ck.doc('C07.R6', 'histogram instruments drop a value only behind value < 0 / missing storage', 4)
     ck.doc('C06.R1', '(shared rule, see C06) the storage aggregates into the looked-up histogram while holding the table lock', 4)
     ck.doc('C08.R2', '(shared rule, see C08) one point per attribute set: every constructor / mutation of the series key ends in UpdateHash()', 5)
